@@ -6,6 +6,7 @@
 #include <atomic>
 #include <cstdio>
 #include <cstdlib>
+#include <clocale>
 #include <cstdarg>
 #include <cstring>
 #include <csetjmp>
@@ -460,6 +461,7 @@ void init() {
     if (__start_eavdata) g_pristine.assign(__start_eavdata, __stop_eavdata);
 }
 
+const char *set_process_locale(const char *name) { return __real_setlocale(LC_ALL, name); }
 void name_range(const void *p, size_t n, const std::string &name) { g_named.push_back(Named{ (uintptr_t)p, (uintptr_t)p + n, name }); }
 void clear_named() { g_named.clear(); }
 
@@ -594,7 +596,16 @@ char *__wrap_strtok(char *s, const char *d) { on_pseudo_write(0, PC); return __r
 char *__wrap_strerror(int e) { on_pseudo_write(1, PC); return __real_strerror(e); }
 int __wrap_rand(void) { on_pseudo_write(2, PC); return __real_rand(); }
 void __wrap_srand(unsigned s) { on_pseudo_write(2, PC); __real_srand(s); }
-char *__wrap_setlocale(int c, const char *l) { on_pseudo_write(3, PC); return __real_setlocale(c, l); }
+// setlocale(cat, NULL) only queries the process locale (a read of the hidden state); anything else replaces it (a write)
+static void on_pseudo_read(int slot, uintptr_t pc_abs) {
+    if (!active()) return;
+    RtGuard rg_;
+    if (g_mode == 1) { g_seq_steps++; return; }
+    uint32_t pc = (uint32_t)(pc_abs - g_base);
+    sched_point(); ev_hash(pc);
+    check_byte(t_tid, (uintptr_t)&g_pseudo[slot], false, pc);
+}
+char *__wrap_setlocale(int c, const char *l) { if (l) on_pseudo_write(3, PC); else on_pseudo_read(3, PC); return __real_setlocale(c, l); }
 char *__wrap_getenv(const char *n) { on_plain_point(PC); return __real_getenv(n); }
 
 // abort / assert inside a simulated thread: stop that thread, keep the simulation alive
